@@ -206,6 +206,11 @@ func (e *Engine) replay(o *Obl, prop string) ReplayResult {
 		oracle = strings.ReplaceAll(oracle, fmt.Sprintf("ARG%d", i), fmt.Sprintf("a%d", i))
 	}
 	oracle = strings.ReplaceAll(oracle, "RECV", "a0")
+	for pfx, imp := range map[string]string{"time.": "time", "binary.": "encoding/binary", "bytes.": "bytes", "strings.": "strings", "math.": "math"} {
+		if strings.Contains(oracle, pfx) {
+			imports[imp] = true
+		}
+	}
 	var b strings.Builder
 	fmt.Fprintf(&b, "package %s\n\nimport (\n", pkgName)
 	for imp := range imports {
@@ -267,6 +272,9 @@ func (e *Engine) replay(o *Obl, prop string) ReplayResult {
 		rr.Reproduced = strings.Contains(rr.Output, "REPLAY-ORACLE-FALSE")
 		if !rr.Reproduced {
 			rr.Why = "the real code satisfied the oracle on the model's input"
+			if strings.Contains(rr.Output, "[build failed]") {
+				rr.Why = "the generated replay test does not compile (see output)"
+			}
 		}
 	}
 	return rr
